@@ -644,9 +644,40 @@ func (c *Ctx) checkEncapsulated() []string {
 						case *ssa.FieldAddr:
 							if pt, ok := in.X.Type().Underlying().(*types.Pointer); ok && types.Identical(types.Unalias(pt.Elem()), named) && in.Field == idx {
 								hit = true
+								if ed.WritesOnly {
+									// reads are allowed: only a store to the field, an element store through a
+									// slice/map loaded from it, or its address escaping counts
+									hit = false
+									for _, r := range *in.Referrers() {
+										switch r := r.(type) {
+										case *ssa.Store:
+											if r.Addr == ssa.Value(in) {
+												hit = true
+											}
+										case *ssa.UnOp:
+											for _, rr := range *r.Referrers() {
+												switch rr := rr.(type) {
+												case *ssa.IndexAddr:
+													for _, r3 := range *rr.Referrers() {
+														if st, ok := r3.(*ssa.Store); ok && st.Addr == ssa.Value(rr) {
+															hit = true
+														}
+													}
+												case *ssa.MapUpdate:
+													if rr.Map == ssa.Value(r) {
+														hit = true
+													}
+												}
+											}
+										case *ssa.DebugRef:
+										default:
+											hit = true // address used in some other way
+										}
+									}
+								}
 							}
 						case *ssa.Field:
-							if types.Identical(types.Unalias(in.X.Type()), named) && in.Field == idx {
+							if !ed.WritesOnly && types.Identical(types.Unalias(in.X.Type()), named) && in.Field == idx {
 								hit = true
 							}
 						case *ssa.Store:
@@ -654,7 +685,7 @@ func (c *Ctx) checkEncapsulated() []string {
 								hit = true
 							}
 						case *ssa.UnOp:
-							if in.Op == token.MUL && types.Identical(types.Unalias(in.Type()), named) {
+							if !ed.WritesOnly && in.Op == token.MUL && types.Identical(types.Unalias(in.Type()), named) {
 								hit = true
 							}
 						}
